@@ -77,3 +77,19 @@ def size_of_class(cls, rng, big=300 * 1024):
     if cls == "random_small":
         return rng.randrange(0, 5000)
     return rng.randrange(0, big)
+
+
+def norm_all(op, out):
+    """normalisation shared by generators that mix op families: `X read` prints `<n> <hex>`, scripted joins print `ok <joins>`"""
+    import re as _re
+    if op.startswith("X read "):
+        parts = out.split(" ")
+        want = op.split(" ")[3]
+        if len(parts) == 2 and parts[0] == want:
+            return parts[1]
+        if len(parts) == 1 and want == "0" and parts[0] == "0":
+            return ""
+        return "short-read:" + out[:40]
+    if (op.startswith("H updsj ") or op.startswith("C updtbb ")) and _re.match(r"^ok \d+$", out):
+        return "ok"
+    return out
